@@ -71,6 +71,15 @@ CHECKS = {
         "exchange; Scores.auc is called for every window of a cut set on every object and TLC "
         "validates the recorded rationals.",
         NOTE, "DESIGN.md 5 (C07)"),
+    "C10": ("TLA+ state machine of the whole API (TLC exhaustive for short histories + -simulate) + "
+            "call-by-call replay + TLC trace validation",
+        "System.tla models a store of objects with constructor and query actions; TLC checks that queries "
+        "leave the store unchanged (action properties) and generates call histories with argument shapes "
+        "() .. (1,2,2) incl. size-0 axes; each history is replayed on one real object, recording after "
+        "EVERY call the projected object state and the caller's array, the scalar call per element, the "
+        "alias and a later repetition; TLC judges shape rule, elementwise agreement, non-mutation and "
+        "repeatability.",
+        NOTE + " Histories are sampled by TLC's seeded simulator.", "DESIGN.md 5 (C10)"),
     "C11": ("TLA+ model with one action per RNG call (TLC exhaustive) + scripted-RNG replay of every "
             "model run + TLC trace validation of seeded runs",
         "Every RNG outcome of every sampling mode is explored by TLC on small sources; every finished "
@@ -102,6 +111,43 @@ CHECKS = {
         "rows are the metric of exactly the produced samples and the interval is the documented "
         "formula on them.",
         NOTE, "DESIGN.md 5 (C14)"),
+    "C15": (TECH,
+        "TLC checks the as-coded support-threshold selection of roc() (monotone x-axis metric, "
+        "containment of supplied points, point counts) for every small object x argument combination "
+        "x x_axis; roc() is called with the same combinations, the matrix the same object reports at "
+        "every returned threshold is recorded and TLC validates rates, order, containment, counts, views.",
+        NOTE, "DESIGN.md 5 (C15)"),
+    "C16": (TECH,
+        "TLC checks the closed form of roc_with_ci under an identity sampler (rule of three exactly at "
+        "rates 0/1, envelope of covering rectangles); roc_with_ci (identity and seeded built-in "
+        "samplers) and the three experimental band functions are run on every small object x argument "
+        "combination and TLC validates well-formedness and the closed form. One known finding "
+        "(fixed_width_band_ci on two-point supports) is reported as KNOWN-FINDING.",
+        NOTE + " alpha^(1/n) tabulated (1e-6).", "DESIGN.md 5 (C16)"),
+    "C17": (TECH,
+        "TLC checks on every small sampled curve x target that the as-coded inversion returns true "
+        "solutions (strictly increasing, in range, interpolant = target, minimal fallback); "
+        "invert_pl_function and threshold_at_metric (points None/int/array, name/callable) are run and "
+        "TLC validates the recorded solutions.",
+        NOTE, "DESIGN.md 5 (C17)"),
+    "C18": (TECH,
+        "TLC checks the table of group metrics and its normalisations on frames growing row by row; "
+        "showbias is called on every frame of the model and on random frames (group values with and "
+        "without '_', 1-2 columns, metrics, thresholds, normalisations, bootstrap modes); TLC validates "
+        "labels, entries and intervals. Two known findings (underscore keys, by_min + bootstrap) are "
+        "reported as KNOWN-FINDING, each tied to its call-site condition.",
+        NOTE, "DESIGN.md 5 (C18)"),
+    "C19": (TECH,
+        "TLC checks construction over a value domain straddling [0,1] (ValueError iff outside) and the "
+        "refinement mapping to Scores; every argument tuple is given to FraudScores and every query is "
+        "run on it and on the mapped Scores object; TLC validates equality and the exception rule.",
+        NOTE, "DESIGN.md 5 (C19)"),
+    "C20": (TECH,
+        "TLC checks the exact model of the deterministic counts and of the validity of the correlated "
+        "joint distribution (decided by squaring); the dataset classes are run on the whole "
+        "(p1, p2, rho, n) grid and on normal models (z grid, round trips to 1e-12, roc, from_metrics, "
+        "sample) and TLC validates counts exactly and analytic values against a tabulated Phi.",
+        NOTE + " The analytic half is a fixed-point check (1e-6), see DESIGN.md 10.", "DESIGN.md 5 (C20)"),
 }
 
 NOT_YET = "check not built yet in this round (see DESIGN.md section 5 for the planned TLA+ model)"
